@@ -312,7 +312,8 @@ func (s *socket) MaybeUpgrade(transport transports.Transport) {
 
 	s.upgrading.Store(true)
 
-	var check, cleanup func()
+	var check, cleanup, closeCandidate func()
+	var candidateClosed atomic.Bool
 	var onPacket, onError, onTransportClose, onClose events.Listener
 	var upgradeTimeoutTimer, checkIntervalTimer atomic.Pointer[utils.Timer]
 
@@ -322,15 +323,28 @@ func (s *socket) MaybeUpgrade(transport transports.Transport) {
 		io.Copy(sb, data.Data)
 		if data.Type == packet.PING && sb.String() == "probe" {
 			socket_log.Debug("got probe ping packet, sending pong")
+			if candidateClosed.Load() {
+				return
+			}
 			transport.Send([]*packet.Packet{{Type: packet.PONG, Data: strings.NewReader("probe")}})
 			s.Emit("upgrading", transport)
 
 			utils.ClearInterval(checkIntervalTimer.Load())
 			checkIntervalTimer.Store(utils.SetInterval(check, 100*time.Millisecond))
+			if candidateClosed.Load() {
+				// closed meanwhile: cleanup() has already run, do not leave the timer behind
+				utils.ClearInterval(checkIntervalTimer.Load())
+			}
 
 		} else if packet.UPGRADE == data.Type && s.ReadyState() != "closed" {
 			socket_log.Debug("got upgrade packet - upgrading")
 			cleanup()
+			// the session may have closed since the test above: a closed session
+			// must not adopt a new transport nor announce an upgrade
+			if s.ReadyState() == "closed" {
+				closeCandidate()
+				return
+			}
 			s.Transport().Discard()
 
 			s.upgraded.Store(true)
@@ -346,7 +360,7 @@ func (s *socket) MaybeUpgrade(transport transports.Transport) {
 			}
 		} else {
 			cleanup()
-			transport.Close()
+			closeCandidate()
 		}
 	}
 
@@ -364,21 +378,25 @@ func (s *socket) MaybeUpgrade(transport transports.Transport) {
 		utils.ClearInterval(checkIntervalTimer.Load())
 		utils.ClearTimeout(upgradeTimeoutTimer.Load())
 
-		if transport != nil {
-			transport.RemoveListener("packet", onPacket)
-			transport.RemoveListener("close", onTransportClose)
-			transport.RemoveListener("error", onError)
-		}
+		transport.RemoveListener("packet", onPacket)
+		transport.RemoveListener("close", onTransportClose)
+		transport.RemoveListener("error", onError)
 		s.RemoveListener("close", onClose)
+	}
+
+	// closes the candidate at most once.  (The candidate used to be marked as closed
+	// by setting the captured variable to nil, which made a handler that was still
+	// running on another goroutine call a method on a nil transport.)
+	closeCandidate = func() {
+		if candidateClosed.CompareAndSwap(false, true) {
+			transport.Close()
+		}
 	}
 
 	onError = func(err ...any) {
 		socket_log.Debug("client did not complete upgrade - %v", err[0])
 		cleanup()
-		if transport != nil {
-			transport.Close()
-			transport = nil
-		}
+		closeCandidate()
 	}
 
 	onTransportClose = func(...any) {
@@ -393,10 +411,8 @@ func (s *socket) MaybeUpgrade(transport transports.Transport) {
 	upgradeTimeoutTimer.Store(utils.SetTimeout(func() {
 		socket_log.Debug("client did not complete upgrade - closing transport")
 		cleanup()
-		if transport != nil {
-			if transport.ReadyState() == "open" {
-				transport.Close()
-			}
+		if transport.ReadyState() == "open" {
+			closeCandidate()
 		}
 	}, s.server.Opts().UpgradeTimeout()))
 
